@@ -8,10 +8,12 @@ a) PhysicalType: for every arm `d => V` of From<u8>, d is the declared discrimin
 b) the typed column readers (values_to_strings / values_to_scalar / values_to_arrow_array, ConditionEvaluator row builder, CountField::update, ColumnGroupBuilder::finish) all dispatch explicitly on the
    same numeric physical types {I64,U64,F64,Bool}; decoder_for has an arm for every physical type the writer constructs.
 c) compute_return_projection carries the constant core set {context_id,event_type,timestamp,event_id} with or without RETURN; the no-RETURN path is the identity.
+e) the compaction reader's conversion of column values to scalars (ColumnBlockSnapshot::values_to_scalar) contains no wrapping integer cast between u64 and i64: values above i64::MAX are
+   converted with a checked TryFrom and kept as text otherwise (noted: values_to_arrow_array casts u64 to i64 for Arrow Int64 columns; Arrow path, not armed).
 d) ScalarValue::to_json / Serialize have an explicit arm per variant; From<serde_json::Value> has an explicit arm per JSON kind.
 """
-FLOOR = 5
-REQUIRED = ["C07.a1", "C07.a2", "C07.b", "C07.c", "C07.d"]
+FLOOR = 6
+REQUIRED = ["C07.a1", "C07.a2", "C07.b", "C07.c", "C07.d", "C07.e"]
 
 NUM = {"I64", "U64", "F64", "Bool"}
 
@@ -248,3 +250,26 @@ def run(ctx):
             bad.append(("wildcard:from-json", "From<serde_json::Value> has a wildcard arm receiving %s" % elsev, None))
         return bad
     ctx.run("C07.d", "K6 TABLE", "ScalarValue conversions", "every scalar variant / JSON kind has its own conversion arm", d)
+
+
+    def e(inst):
+        b = F.fn("ColumnBlockSnapshot::values_to_scalar")
+        fam = [b] + [F.fn_exact(k) for k in F.find("^" + re.escape(b.key.split("::{closure")[0]) + r"::\{closure") if k != b.key]
+        bad = []
+        ncast = 0
+        for bb_ in fam:
+            for blk in bb_.live_blocks():
+                for s_ in bb_.blocks[blk]["s"]:
+                    v = s_.get("v")
+                    if v and v["r"] == "cast" and v["ck"] == "IntToInt":
+                        ncast += 1
+                        pl = v["o"].get("m") or v["o"].get("c")
+                        sty = bb_.local_ty(pl[0]) if pl and len(pl) == 1 else (v["o"].get("ty") or "?")
+                        if {sty, v["ty"]} == {"u64", "i64"}:
+                            bad.append(("wrapping-cast:%s->%s" % (sty, v["ty"]), "values_to_scalar converts %s to %s with a wrapping cast: u64 values above i64::MAX change value when a segment is compacted" % (sty, v["ty"]), None))
+        chk = [c for bb_ in fam for c in bb_.calls if not c.cleanup and re.search(r"::try_from$|::try_into$", c.nname)]
+        inst.sites = ["IntToInt casts: %d; checked conversions: %d" % (ncast, len(chk))]
+        if not chk:
+            bad.append(("no-checked-conversion", "values_to_scalar no longer converts u64 column values with a checked conversion", None))
+        return bad
+    ctx.run("C07.e", "K4 EFFECT", "ColumnBlockSnapshot::values_to_scalar", "u64 values survive compaction over their full range", e)
